@@ -251,6 +251,12 @@ def run(ctx):
                 for directio in (0, 1):
                     red.append(dict(N=N, I=I, nc=nc, T=64, directio=directio, seed=ctx.seed))
     ctx.pmap(case_reducer, red)
+    # reading the parameters back from a stem that was recorded before with ANOTHER orientation / fch1 / first channel
+    from mc.checks import c04
+    confs = [dict(bpf=2, nb=2, asc=True, fch1=0.0, start_chan=0, num_chans=2, npol=2, source='ant', dio=1),
+             dict(bpf=2, nb=2, asc=False, fch1=6e9, start_chan=1, num_chans=3, npol=1, source='ant', dio=0),
+             dict(bpf=1, nb=2, asc=True, fch1=1e6, start_chan=2, num_chans=1, npol=2, source='ant', dio=1)]
+    ctx.pmap(c04.case_restem, [dict(box='restem', steps=[a, b]) for a in confs for b in confs if a is not b])
     return ctx.finish(
         rule='complete box of (sample_rate, branches) x channel window x orientation x fch1 x polarisation placement x recorded '
              'coarse channel (DC channel excluded) x fine-bin offset {-N/2+2, -5, -2.63, -1, 0.37, 1, 5, N/2-2} x drift (fine bins '
